@@ -36,6 +36,10 @@ def run(res, pool, tier, seed):
     jobs.append(dict(module="MC_FlatBody.tla", tag="pairpure-body", invariants=["Emit"], timeout=3600,
                      constants=dict(GENK=set(), NGEN=1, S=2, BODIES=set(POLYH + POLYG), KF=set(flat), SEED=(seed + 3) % 1000,
                                     NSHARD=600 if tier == "quick" else 30, NXCHECK=1000)))
+    allb = set(POLYH + POLYG)
+    jobs.append(dict(module="MC_BodyBody.tla", tag="pairpure-bodybody", invariants=["Emit"], timeout=3600, batch=40,
+                     constants=dict(NL2=1000, SA=2, OFF=0, GENK=set(), NGEN=1, S=2, BODIES1=allb, BODIES2=allb, T=2, SEED=(seed + 4) % 1000,
+                                    NSHARD=150 if tier == "quick" else 12)))
     engine.run_jobs(res, jobs, pool)
     import traces
     traces.run_for(res, ["sessions"], {"C20"}, seed=seed + 12, nsessions=400 if tier == "quick" else 4000)
